@@ -182,6 +182,21 @@ impl<const N: usize> CobsAccumulator<N> {
     }
 }
 
+/// Verification hooks (only with `--cfg postcard_verif`): expose the complete
+/// internal state so an explicit-state explorer can key on it and restart from it.
+#[cfg(postcard_verif)]
+impl<const N: usize> CobsAccumulator<N> {
+    /// The whole internal state: backing buffer (including stale bytes) and fill index.
+    pub fn verif_state(&self) -> (&[u8; N], usize) {
+        (&self.buf, self.idx)
+    }
+
+    /// Rebuild an accumulator from a state previously observed with [`Self::verif_state`].
+    pub fn verif_from_state(buf: [u8; N], idx: usize) -> Self {
+        CobsAccumulator { buf, idx }
+    }
+}
+
 #[cfg(test)]
 mod test {
     use super::*;
